@@ -41,21 +41,21 @@ type sim struct {
 	fp     *vkit.Hash64
 	failed bool
 
-	db        *statedb.DB
-	tabs      []statedb.RWTable[*concw.Row]
-	committed []*tmodel
-	doneFns   []map[string]func(statedb.WriteTxn) // per table: name -> done func (committed registrations only)
-	watches   []*initWatch
-	before    map[*initWatch]bool
+	db          *statedb.DB
+	tabs        []statedb.RWTable[*concw.Row]
+	committed   []*tmodel
+	doneFns     []map[string]func(statedb.WriteTxn) // per table: name -> done func (committed registrations only)
+	watches     []*initWatch
+	before      map[*initWatch]bool
 	expectClose map[int]bool // tables that become initialized by the commit in flight
-	nextName  int
-	ctl        *hookctl.Ctl
-	regRng     *rand.Rand
-	regSeq     int
-	regPending chan struct{}
-	checks    int
-	registered int
-	verdicts  int
+	nextName    int
+	ctl         *hookctl.Ctl
+	regRng      *rand.Rand
+	regSeq      int
+	regPending  chan struct{}
+	checks      int
+	registered  int
+	verdicts    int
 }
 
 func (s *sim) logf(f string, a ...any) {
